@@ -54,13 +54,14 @@ Fixpoint fam_workloads (len : nat) (o : Z) : list (list op) :=
   | S l => [] :: flat_map (fun x => map (cons x) (fam_workloads l (o + 1))) (fam_ops o)
   end.
 
-Definition sweep_one (ops : list op) : bool :=
-  let ss := sessions_of 8 2 ops in
-  let total := length (all_writes 2 ss) in
-  forallb (fun n => overwrite_inflight 2 ss n || forallb (hit_ok_b 8 2 ss n) fam_keys) (seq 0 (S total)).
+Definition sweep_gen (N P : Z) (keys : list key) (ops : list op) : bool :=
+  let ss := sessions_of N P ops in
+  let total := length (all_writes P ss) in
+  forallb (fun n => overwrite_inflight P ss n || forallb (hit_ok_b N P ss n) keys) (seq 0 (S total)).
+
+Definition sweep_one (ops : list op) : bool := sweep_gen 8 2 fam_keys ops.
 
 Definition sweep (len : nat) : bool := forallb sweep_one (fam_workloads len 1).
-
 
 Lemma sweep4 : forallb sweep_one (fam_workloads 4 1) = true.
 Proof. vm_compute. reflexivity. Qed.
@@ -80,27 +81,37 @@ Proof.
   apply Z.eqb_eq in H0, H1. now subst.
 Qed.
 
+(* what one sweep step establishes, for arbitrary parameters (nothing here can be reduced by the kernel) *)
+Lemma sweep_gen_spec : forall N P keys ops, sweep_gen N P keys ops = true ->
+  forall n, (n <= length (all_writes P (sessions_of N P ops)))%nat ->
+  overwrite_inflight P (sessions_of N P ops) n = false ->
+  forall k, In k keys ->
+  forall c, hit_after N P (sessions_of N P ops) n None k = Some c ->
+  exists s, In s (sessions_of N P ops) /\ completed_b P (sessions_of N P ops) n s = true /\ s_key s = k /\
+            c = full_stream s.
+Proof.
+  intros N P keys ops H n Hn Hov k Hk c Hc. unfold sweep_gen in H. cbv zeta in H.
+  rewrite forallb_forall in H.
+  assert (Hin : In n (seq 0 (S (length (all_writes P (sessions_of N P ops)))))) by (apply in_seq; lia).
+  specialize (H n Hin). apply orb_true_iff in H. destruct H as [H | H]; [congruence|].
+  rewrite forallb_forall in H. specialize (H k Hk). unfold hit_ok_b in H. rewrite Hc in H.
+  apply existsb_exists in H. destruct H as (s & Hin_s & Hs).
+  apply andb_prop in Hs. destruct Hs as [Hs Heq]. apply andb_prop in Hs. destruct Hs as [Hcomp Hkey].
+  exists s. repeat split; auto using key_eqb_eq, atoms_eqb_eq.
+Qed.
+
 (* For every workload of the family, every crash point at a write boundary at which no same-key overwrite is in
    flight, and both keys: a hit after recovery is the full stream of a session with that key all of whose writes
    are among the first n. *)
 Lemma sweep_sound :
   forall ops, In ops (fam_workloads 4 1) ->
-  let ss := sessions_of 8 2 ops in
-  forall n, (n <= length (all_writes 2 ss))%nat ->
-  overwrite_inflight 2 ss n = false ->
+  forall n, (n <= length (all_writes 2 (sessions_of 8 2 ops)))%nat ->
+  overwrite_inflight 2 (sessions_of 8 2 ops) n = false ->
   forall k, In k fam_keys ->
-  forall c, hit_after 8 2 ss n None k = Some c ->
-  exists s, In s ss /\ completed_b 2 ss n s = true /\ s_key s = k /\ c = full_stream s.
+  forall c, hit_after 8 2 (sessions_of 8 2 ops) n None k = Some c ->
+  exists s, In s (sessions_of 8 2 ops) /\ completed_b 2 (sessions_of 8 2 ops) n s = true /\ s_key s = k /\
+            c = full_stream s.
 Proof.
-  intros ops Hops ss n Hn Hov k Hk c Hc.
-  assert (H1 : sweep_one ops = true) by exact (proj1 (forallb_forall sweep_one (fam_workloads 4 1)) sweep4 ops Hops).
-  unfold sweep_one in H1. fold ss in H1.
-  assert (Hin : In n (seq 0 (S (length (all_writes 2 ss))))) by (apply in_seq; lia).
-  pose proof (proj1 (forallb_forall _ _) H1 n Hin) as H2. cbv beta in H2.
-  rewrite Hov in H2. cbn [orb] in H2.
-  pose proof (proj1 (forallb_forall _ _) H2 k Hk) as H3.
-  unfold hit_ok_b in H3. rewrite Hc in H3.
-  apply existsb_exists in H3. destruct H3 as (s & Hin_s & Hs).
-  apply andb_prop in Hs. destruct Hs as [Hs Heq]. apply andb_prop in Hs. destruct Hs as [Hcomp Hkey].
-  exists s. repeat split; auto using key_eqb_eq, atoms_eqb_eq.
+  intros ops Hops.
+  exact (sweep_gen_spec 8 2 fam_keys ops (proj1 (forallb_forall sweep_one (fam_workloads 4 1)) sweep4 ops Hops)).
 Qed.
